@@ -1,6 +1,7 @@
 """C15 - the sandbox command runs its target only under the loaded policy."""
 import json
 import os
+import shutil
 import re
 import subprocess
 
@@ -77,6 +78,9 @@ BIG_TAILS_BAD = {"unknownsyscall": "  - action: errno\n    names:\n    - verif_n
                  "unknownaction": "  - action: permit\n    names:\n    - security\n"}
 
 
+SETARCH = shutil.which("setarch")
+
+
 def run_sandbox(d, scratch, fault, idx, nnp=True, uid=0, strace=False, policy_text=None, probes=None, fatal=None, policy_path=None):
     pol = os.path.join(scratch, "pol_%s_%d.yml" % (fault, idx))
     with open(pol, "w") as f:
@@ -106,6 +110,13 @@ def run_sandbox(d, scratch, fault, idx, nnp=True, uid=0, strace=False, policy_te
     kw = {}
     if uid:
         kw = dict(user=uid, group=uid, extra_groups=[])
+    # Sandbox!Domain: the execution domain the command is started in is no input of the policy it installs - every third undisturbed
+    # run starts under `setarch i686` (PER_LINUX32: uname(2) reports a 32-bit machine to the same 64-bit programs), every sixth with
+    # the 2.6 version string on top
+    domain = "native"
+    if fault == "none" and idx % 3 == 2 and SETARCH:
+        domain = "PER_LINUX32" + ("|UNAME26" if idx % 6 == 5 else "")
+        args = [SETARCH, "i686"] + (["--uname-2.6"] if idx % 6 == 5 else []) + args
     st = None
     if strace:
         st = os.path.join(scratch, "strace_%s_%d.txt" % (fault, idx))
@@ -119,7 +130,7 @@ def run_sandbox(d, scratch, fault, idx, nnp=True, uid=0, strace=False, policy_te
         return None
     return {"fault": fault, "rc": p.returncode, "stdout": p.stdout, "stderr": p.stderr[-400:], "marker": os.path.exists(marker), "strace": st,
             "sigsys": p.returncode in (-31, 159) or "SIGSYS" in p.stderr or "bad system call" in p.stderr,
-            "target": target, "nnp": nnp, "uid": uid}
+            "target": target, "nnp": nnp, "uid": uid, "domain": domain}
 
 
 def strace_events(path, target, fault):
@@ -389,7 +400,20 @@ def check(ctx, replay=None):
         else:
             rnd.shuffle(cs)
         todo += [(rows[0], c) for c in cs[:n]]
+    # (runs that start in another execution domain use probe syscalls whose names every table has: a policy is valid or not
+    #  whatever the domain, and these stay valid for the 32-bit sibling table)
+    rc, o, e = ctx.run([os.path.join(ctx.harness(), "archdump")], input="[]", timeout=120)
+    if rc != 0:
+        raise vlib.Machinery("archdump failed: " + e[-500:])
+    # (the tables a 64-bit x86 machine can be taken for; the ARM tables have none of the retired calls the probes use)
+    tabs = [a["names"] for a in json.loads(o.strip().splitlines()[-1])["arches"] if a["var"] in ("X86_64", "I386")]
+    common = [p for p in cmdfam.PROBES if all(p[0] in t for t in tabs)]
+    sys_all = cmdfam.PROBES
+    ndomain = 0
     for k, (header, c) in enumerate(todo):
+        need = 1 + max([5] + [n for g in c["pol"]["groups"] for n in g["names"]] + [e["num"] for g in c["pol"]["groups"] for e in g["conds"]]
+                       + [ev["nr"] for ev in header["events"] if ev["nr"] < header["nsys"]])
+        sys = common if ((1000 + k) % 3 == 2 and SETARCH and len(common) >= need) else sys_all
         probes, want = [], []
         for ev, dec in zip(header["events"], c["ideal"]):
             if ev["arch"] != "own" or ev["nr"] >= header["x32bit"] or dec not in ("allow", "errno|EPERM"):
@@ -407,6 +431,7 @@ def check(ctx, replay=None):
             continue
         ctx.cov["evaluations"] += len(probes)
         ctx.cov["traces_validated_against_impl"] += 1
+        ndomain += 1 if res["domain"] != "native" else 0
         try:
             o = json.loads(res["stdout"].strip().splitlines()[-1])
             got = [p["errno"] for p in o["probes"]]
@@ -420,6 +445,8 @@ def check(ctx, replay=None):
                  {"policy": abstract_yaml(c["pol"], sys)})
         elif len(set(want)) > 1:
             ctx.cov["distinct_nontrivial"] += 1
+    ctx.cov["compiler_scope_policies_run_in_another_execution_domain"] = ndomain
+    sys = sys_all
     # (d) every action, as the default and as a group's action, observed natively (Sandbox!Observes): the policy allows every
     #     system call of the table by name except the probe calls, so that the Go runtime of sandbox and target is not hit
     rc, o, e = ctx.run([os.path.join(ctx.harness(), "archdump")], input="[]", timeout=120)
